@@ -377,13 +377,70 @@ fn main() {
         res.violation("id-secret-mismatch:parallel-signers", b, json!({"family": "parallel-signers (sampled)", "threads": 4, "iterations_per_thread": iters}));
     }
     res.cov("parallel_signer_requests_sampled", signed_total.load(Ordering::Relaxed));
+    // ---- SAMPLED, labelled: key snapshots taken through the key-keeper actor by free-running tasks while another task
+    // rotates the key (the scheduler above parks get_key / set_key as a whole: an actor conversation that a snapshot is
+    // assembled from is only interleaved by real parallelism); every snapshot is (id, its own secret)
+    let snap_iters: u64 = if thorough { 60000 } else { 15000 };
+    let torn: Arc<Mutex<Vec<String>>> = Arc::new(Mutex::new(Vec::new()));
+    let snaps = Arc::new(AtomicU64::new(0));
+    {
+        ACTIVE.store(false, Ordering::SeqCst);
+        let kk = w.shared.get_key_keeper_shared_state();
+        let stop = Arc::new(AtomicBool::new(false));
+        let rot = {
+            let (kk, stop) = (kk.clone(), stop.clone());
+            w.rt.spawn(async move {
+                let ks = [K1, K2, K3];
+                let mut i = 0usize;
+                while !stop.load(Ordering::SeqCst) {
+                    let k = ks[i % 3];
+                    let _ = kk.update_key(world::make_key(k.0, k.1)).await;
+                    if i % 7 == 0 {
+                        let _ = kk.clear_key().await;
+                    }
+                    i += 1;
+                    tokio::task::yield_now().await;
+                }
+            })
+        };
+        let mut hs = Vec::new();
+        for _t in 0..3 {
+            let (kk, torn, snaps) = (kk.clone(), torn.clone(), snaps.clone());
+            hs.push(w.rt.spawn(async move {
+                for _ in 0..snap_iters {
+                    if let Ok(Some(k)) = kk.get_current_key().await {
+                        snaps.fetch_add(1, Ordering::Relaxed);
+                        let want = [K1, K2, K3].iter().find(|x| x.0 == k.guid).map(|x| x.1);
+                        if want != Some(k.key.as_str()) {
+                            let mut t = torn.lock().unwrap();
+                            if t.len() < 3 {
+                                t.push(format!("snapshot with id {} carries the secret {}...", k.guid, &k.key[..8.min(k.key.len())]));
+                            }
+                        }
+                    }
+                }
+            }));
+        }
+        w.rt.block_on(async {
+            for h in hs {
+                let _ = h.await;
+            }
+        });
+        stop.store(true, Ordering::SeqCst);
+        let _ = w.rt.block_on(rot);
+        w.set_key(Some(K1));
+    }
+    for b in torn.lock().unwrap().iter() {
+        res.violation("id-secret-mismatch:key-snapshot-during-rotation", b, json!({"family": "key-snapshots-during-rotation (sampled)", "tasks": 3, "iterations_per_task": snap_iters}));
+    }
+    res.cov("key_snapshots_during_rotation_sampled", snaps.load(Ordering::Relaxed));
     res.cov("states", schedules);
     res.cov("transitions", transitions);
     res.cov("traces_validated_against_impl", schedules);
     res.cov("schedules_per_family", json!(per_family));
     res.cov("distinct_id_secret_pairings_observed", json!(pairings));
     res.cov("exhaustive", true);
-    res.cov("rule", "every interleaving of the key-actor operations of: K = [update_key(K2), clear_key, update_key(K3)] (starting from K1 latched), S1 = a proxied request (real listener, real sockets; S1k: on a kept-alive connection that already served a request under K1), S2 = WireServerClient::get_goalstate, S3 = ImdsClient::get_imds_instance_info (thorough: also all four together and two proxied requests); also with the mock rejecting the first own host call(s) with 403 (retry paths); each operation parks at the guarded scheduling point in KeyKeeperSharedState::get_key/set_key and is released one at a time; states = complete schedules, transitions = released operations; every request the mock host receives is verified from its raw bytes under the key registered for the announced id; plus a SAMPLED family: 4 free-running threads sign 30000 (120000) requests each through hyper_client::build_request with three alternating key snapshots".to_string());
+    res.cov("rule", "every interleaving of the key-actor operations of: K = [update_key(K2), clear_key, update_key(K3)] (starting from K1 latched), S1 = a proxied request (real listener, real sockets; S1k: on a kept-alive connection that already served a request under K1), S2 = WireServerClient::get_goalstate, S3 = ImdsClient::get_imds_instance_info (thorough: also all four together and two proxied requests); also with the mock rejecting the first own host call(s) with 403 (retry paths); each operation parks at the guarded scheduling point in KeyKeeperSharedState::get_key/set_key and is released one at a time; states = complete schedules, transitions = released operations; every request the mock host receives is verified from its raw bytes under the key registered for the announced id; plus a SAMPLED family: 4 free-running threads sign 30000 (120000) requests each through hyper_client::build_request with three alternating key snapshots; and a SAMPLED family: 3 free-running tasks take 15000 (60000) key snapshots each through the actor while another task rotates the key".to_string());
     res.assume("all cross-task state of the key lives in the key-keeper actor, whose handlers contain no await: the order of actor operations determines the behaviour");
     std::process::exit(res.finish());
 }
